@@ -125,6 +125,21 @@ def run(ctx):
                 a['start_level'] = a['end_level'] = gen.k8(rng, 1, 3)
                 a['size'] = a['start_level'] + gen.k8(rng, 0.5, 2)
     specs += blk
+    # parameters written as whole numbers (int) with an end level in between; a holding duration of zero (nothing may be kept)
+    whole = gen.gen_many(ctx.seed, n // 3, dict(CFG, p_blocks=0.0, p_inflow=0.0, p_coarse=0.0, p_max_store=0.0, kinds={'Storage': 1}, n_assets=(1, 2)), 'c05int_')
+    for k_, sp in enumerate(whole):
+        rng = _rnd.Random(str(sp['seed']) + '/int')
+        for a in sp['assets']:
+            if a['kind'] == 'Storage':
+                a.pop('inflow', None)
+                if k_ % 3 < 2:
+                    a['size'] = int(rng.randint(4, 12))
+                    a['start_level'] = int(rng.randint(0, 3))
+                    a['end_level'] = a['start_level'] + rng.choice([0.5, -0.5, 1.5]) if a['start_level'] >= 1 else 0.5
+                else:
+                    a['start_level'] = a['end_level'] = 0.0
+                    a['max_store_duration'] = 0
+    specs += whole
     specs = ctx.specs(specs)
     res = C.run_impl('portfolio', specs)
     parts = C.run_impl('assets', specs)
